@@ -290,13 +290,25 @@ Error CodeHolder::reinit() noexcept {
   }
   CodeHolder_add_text_section(this);
 
+  Error reinit_err = Error::kOk;
   BaseEmitter* emitter = _attached_first;
   while (emitter) {
-    emitter->on_reinit(*this);
-    emitter = emitter->_attached_next;
+    BaseEmitter* next = emitter->_attached_next;
+    Error emitter_err = emitter->on_reinit(*this);
+
+    if (ASMJIT_UNLIKELY(emitter_err != Error::kOk)) {
+      // An emitter that failed to reinitialize must not stay attached in a half-initialized state - detach it
+      // (it can be attached again) and report the first error.
+      (void)detach(emitter);
+      if (reinit_err == Error::kOk) {
+        reinit_err = emitter_err;
+      }
+    }
+
+    emitter = next;
   }
 
-  return Error::kOk;
+  return reinit_err;
 }
 
 void CodeHolder::reset(ResetPolicy reset_policy) noexcept {
